@@ -276,18 +276,38 @@ Definition pi_lookup (st : pindex) (now : Z) (needed : list N) : pindex * option
    cache below it served: the AAAA NODATA answer and the A answer of the
    sub-query.  A piece is either fresh from downstream (its upstream TTLs) or a
    cache hit (every record at shown_ttl).  TTLs are seconds. *)
-Inductive piece := PFresh (ttl : Z) | PHit (e : entry).
+Inductive piece := PFresh (ttl : Z) (lease : option Z) | PHit (e : entry).
 Definition piece_ttl (p : piece) (now : Z) : Z :=
-  match p with PFresh t => t | PHit e => shown_ttl e now end.
+  match p with PFresh t _ => t | PHit e => shown_ttl e now end.
 (* negativeAAAATTL: min(SOA TTL as served, SOA MINIMUM field), or no SOA *)
 Definition dns64_neg (neg : option (piece * Z)) (now : Z) : Z :=
   match neg with
   | Some (p, minimum) => let t := piece_ttl p now in if minimum <? t then minimum else t
   | None => dns64_no_soa_ceiling
   end.
-(* the synthesised TTL: min over the negative TTL and every A record *)
-Definition dns64_ttl (neg : option (piece * Z)) (addrs : list piece) (now : Z) : Z :=
+(* RFC 6147 5.1.7: min over the negative TTL and every A record *)
+Definition dns64_rfc_ttl (neg : option (piece * Z)) (addrs : list piece) (now : Z) : Z :=
   fold_left (fun cur p => let t := piece_ttl p now in if t <? cur then t else cur) addrs (dns64_neg neg now).
+(* what a consulted piece folds into the request tree's ResponseMeta: a cache
+   hit its end of life (boundRequestToEntryLifetime), a fresh downstream answer
+   the delegation lease it was learned through (None = none reported) *)
+Definition piece_fold (p : piece) : option Z :=
+  match p with PFresh _ l => l | PHit e => Some (bound_entry e) end.
+Definition dns64_bound (m : option Z) (ps : list piece) : option Z :=
+  fold_left bound (map piece_fold ps) m.
+(* synthesise: `if cut := ResponseMetaFrom(w.ctx).CutUntil(); !cut.IsZero()` —
+   left = max(0, cut - now); secs = left / 1 s; ttl = min(ttl, secs) *)
+Definition dns64_cap (b : option Z) (now ttl : Z) : Z :=
+  match b with
+  | None => ttl
+  | Some c => let left := if c - now <? 0 then 0 else c - now in
+              let secs := left / second in
+              if secs <? ttl then secs else ttl
+  end.
+(* the synthesised TTL: the RFC value capped by the bound every consulted piece
+   (AAAA answer, alias pieces of the A chase, address answer) folded *)
+Definition dns64_ttl (neg : option (piece * Z)) (addrs : list piece) (consulted : list piece) (now : Z) : Z :=
+  dns64_cap (dns64_bound None consulted) now (dns64_rfc_ttl neg addrs now).
 
 (* ------------------------------------------------------------------ *)
 (** * 5. The store: set / remove / pointer-CAS                          *)
